@@ -18,7 +18,7 @@ from .common import viol, ImplRun, close, asset_nodes
 PROPERTY = "C08"
 RULE = ("E3: all 36 half-open intervals over 9 instants around the horizon x element kinds (window of contract / take contract / "
         "storage / block storage / transport / extended transport / multi-commodity / plant / CHP / scaled / structured asset; "
-        "order; min-take and max-take period) x base portfolios x list positions x grids; distinct = canonical case; "
+        "order; min-take and max-take period, alone and next to a second period of the same kind inside the horizon) x base portfolios x list positions x grids; distinct = canonical case; "
         "non-trivial = the base portfolio has non-zero dispatch and the run completed")
 ASSUMPTIONS = ["a window [s,e) selects the grid points t with s <= t < e (documented rule), clipped to the horizon",
                "equivalence 'with vs. without an out-of-horizon element' is decided on the optimal value and, where R2 models the "
@@ -30,7 +30,7 @@ MAX_S = {"quick": 900, "thorough": 7200}
 
 KINDS_WINDOW = ["contract", "take_contract", "storage", "block_storage", "transport", "ext_transport", "multicommodity",
                 "plant", "chp", "scaled", "structured", "coarse_contract", "coarse_storage", "coarse_transport"]
-KINDS_OTHER = ["order", "min_take", "max_take"]
+KINDS_OTHER = ["order", "min_take", "max_take", "min_take2", "max_take2"]   # ...2: plus a second period of the same kind inside the horizon (may overlap)
 
 
 def instants(g):
@@ -109,7 +109,7 @@ def build_cases(tier):
             for base in ("one", "two"):
                 for kind in KINDS_WINDOW + KINDS_OTHER:
                     positions = [0, 1, 99] if tier == "quick" else [0, 1, 2, 99]
-                    if kind in ("min_take", "max_take"):
+                    if kind in ("min_take", "max_take", "min_take2", "max_take2"):
                         positions = [99]
                     for pos in positions:
                         for (s, e) in ivs:
@@ -142,10 +142,17 @@ def make_scenarios(case):
         # take period on the market contract
         mk = with_[0]
         mk["type"] = "Contract"
-        vol = 12.0 if kind == "min_take" else -6.0
-        mk[kind] = dict(start=[s], end=[e], values=[vol])
+        vol = 12.0 if kind.startswith("min_take") else -6.0
+        mk[kind[:8]] = dict(start=[s], end=[e], values=[vol])
+        if kind.endswith("2"):
+            s_in, e_in = g.instant_iso(("gp", 1)), g.instant_iso(("gp", g.T - 1))
+            mk[kind[:8]] = dict(start=[s, s_in], end=[e, e_in], values=[vol, vol / 2.0])
     scn_with = dict(grid=gj, prices=prices, assets=with_, mode="mono")
     base_wo = copy.deepcopy(base)
+    if kind.endswith("take2"):   # "without" keeps the period inside the horizon
+        mk2 = base_wo[0]
+        mk2["type"] = "Contract"
+        mk2[kind[:8]] = dict(start=[s_in], end=[e_in], values=[vol / 2.0])
     if kind == "order":   # "without" keeps the in-horizon order of the book
         el2 = copy.deepcopy(el)
         for key in ("start", "end", "capa", "price"):
@@ -181,7 +188,7 @@ def run_case(case):
         return res
     if run.status != "optimal":
         res["counters"]["not_optimal_" + placement] = 1
-        if placement == "empty":
+        if placement == "empty" and ImplRun(scn_wo, solver="SCIPY", want_output=False).status == "optimal":
             V.append(viol("c08.inert", "%s lying outside the horizon makes the problem %s" % (kind, run.status), tags, ctag))
         else:
             res["status"] = "skip"
